@@ -189,6 +189,25 @@ func hasChangeEvent(evs []map[string]any) bool {
 
 func brief(m map[string]any) string { b, _ := json.Marshal(canonJSON(m)); return string(b) }
 
+// the contact in memory must be the contact its marshalled form reads back to: channel affinity lives in the raw URN's
+// channel query, and callers (and a persisted session) only ever see that
+func (u *universe) affinityDiffers(c *flows.Contact) string {
+	b, err := json.Marshal(c)
+	if err != nil {
+		panic(err)
+	}
+	back, err := flows.ReadContact(u.sa, b, noMissing)
+	if err != nil {
+		return "" // a stored URN the reader rejects: nothing to compare with
+	}
+	for i, cu := range c.URNs() {
+		if i < len(back.URNs()) && channelIndex(cu.Channel()) != channelIndex(back.URNs()[i].Channel()) {
+			return fmt.Sprintf("URN %s: channel pointer %d in memory, %d after reading the marshalled contact back", cu.URN(), channelIndex(cu.Channel()), channelIndex(back.URNs()[i].Channel()))
+		}
+	}
+	return ""
+}
+
 func oracleC03Direct(res *hx.Result, in *directInput, a1, a2 *application) {
 	cls := in.Modifier.class()
 	if in.Clock == "sequential" {
@@ -390,7 +409,14 @@ func runDirect(res *hx.Result, in *directInput, wantCoq bool) (*directOutcome, e
 	staleBefore := u.membershipErrors(contact)
 	wasActive := contact.Status() == flows.ContactStatusActive
 
+	affinityBefore := u.affinityDiffers(contact)
 	a1 := u.applyOnce(contact, mod)
+	if res.Property == "C03" && affinityBefore == "" {
+		res.OracleChecks++
+		if d := u.affinityDiffers(contact); d != "" {
+			res.Fail(in.Modifier.class()+":channel-affinity-differs-from-marshalled-contact", in, fmt.Sprintf("after modifiers.Apply (modified=%v, %d events): %s", a1.modified, len(a1.eventsJS), d))
+		}
+	}
 	post1 := canonContact(it, contact)
 	stale1 := u.membershipErrors(contact)
 	active1 := contact.Status() == flows.ContactStatusActive
